@@ -457,3 +457,158 @@ Theorem pjson_of_decoded : forall S o name m fuel,
   wf_msg S name m = true -> (depth (VMsg m) <= fuel)%nat ->
   match decode_msg S fuel name (encode_msg m) with Some m' => pjson_of S o name m' | None => None end = pjson_of S o name m.
 Proof. intros S o name m fuel Hwf Hd. rewrite (decode_encode_msg S name m fuel Hwf Hd). reflexivity. Qed.
+
+(* ------------------------------------------------------------------ floats: the lexeme denotes exactly the float's value *)
+Lemma span_digits_app : forall ds tail, forallb is_digit ds = true ->
+  match tail with [] => True | c :: _ => is_digit c = false end ->
+  span_digits (ds ++ tail) = (ds, tail).
+Proof.
+  induction ds as [|d t IH]; intros tail Hd Ht.
+  - cbn [app]. destruct tail as [|c r]; [reflexivity|]. cbn [span_digits]. rewrite Ht. reflexivity.
+  - cbn in Hd. apply andb_true_iff in Hd. destruct Hd as [H1 H2].
+    cbn [app span_digits]. rewrite H1, (IH tail H2 Ht). reflexivity.
+Qed.
+
+Lemma lex_decimal_dec_lex : forall neg m e, 0 <= m -> e <= 0 -> lex_decimal (dec_lex neg m e) = Some (neg, m, e).
+Proof.
+  intros neg m e Hm He. unfold lex_decimal. rewrite (num_okb_dec_lex neg m e Hm He). cbn [negb].
+  unfold dec_lex.
+  destruct (fmt_nat_spec m Hm) as (Hd & Hv & Hh).
+  set (tail := if e =? 0 then [] else 101 :: 45 :: fmt_nat (- e)).
+  assert (Htail : match tail with [] => True | c :: _ => is_digit c = false end)
+    by (unfold tail; destruct (e =? 0); [exact I | reflexivity]).
+  assert (Hstrip : (let '(neg0, r0) := match (if neg then [45] else []) ++ fmt_nat m ++ tail with
+                                      | c :: r => if c =? 45 then (true, r) else (false, (if neg then [45] else []) ++ fmt_nat m ++ tail)
+                                      | [] => (false, (if neg then [45] else []) ++ fmt_nat m ++ tail)
+                                      end in (neg0, r0)) = (neg, fmt_nat m ++ tail)).
+  { destruct neg; cbn [app]; [reflexivity|].
+    destruct (fmt_nat m) as [|d t] eqn:E; [discriminate Hh|].
+    cbn in Hd. apply andb_true_iff in Hd. destruct Hd as [Hd0 _]. apply is_digit_range in Hd0.
+    cbn [app]. destruct (Z.eqb_spec d 45); [lia | reflexivity]. }
+  match goal with |- (let '(n0, r0) := ?X in _) = _ =>
+    replace X with (neg, fmt_nat m ++ tail)
+      by (symmetry; revert Hstrip; match goal with |- (let '(a, b) := ?Y in (a, b)) = _ -> _ => destruct Y; intros H; exact H end)
+  end.
+  rewrite (span_digits_app _ tail Hd Htail).
+  unfold tail. destruct (Z.eqb_spec e 0) as [->|Hne].
+  - rewrite app_nil_r, Hv. reflexivity.
+  - change (101 =? 46) with false. cbn iota.
+    change (45 =? 45) with true. cbn iota.
+    destruct (fmt_nat_spec (- e)) as (Hd2 & Hv2 & _); [lia|].
+    rewrite (span_digits_all _ Hd2). cbn [fst]. rewrite app_nil_r, Hv, Hv2. cbn [length Z.of_nat].
+    f_equal. f_equal. lia.
+Qed.
+
+(* the decimal m * 10^e the lexeme denotes IS the value M * 2^k of the bit pattern (cross-multiplied, all integers) *)
+Theorem f64_lex_value_exact : forall b neg M k, f64_decomp b = (neg, M, k) ->
+  exists m e, lex_decimal (f64_lex b) = Some (neg, m, e) /\ e <= 0 /\
+              m * 2 ^ (Z.max 0 (- k)) = M * 2 ^ (Z.max 0 k) * 10 ^ (- e).
+Proof.
+  intros b neg M k H. unfold f64_lex. rewrite H.
+  pose proof (f64_decomp_nonneg _ _ _ _ H) as HM.
+  destruct (Z.eqb_spec M 0) as [->|HM0].
+  - exists 0, 0. split; [apply lex_decimal_dec_lex; lia|]. split; [lia|]. cbn. lia.
+  - destruct (Z.leb_spec 0 k) as [Hk|Hk].
+    + exists (M * 2 ^ k), 0. split.
+      * apply lex_decimal_dec_lex; [|lia]. apply Z.mul_nonneg_nonneg; [lia|]. apply Z.pow_nonneg. lia.
+      * split; [lia|]. rewrite Z.max_l by lia. rewrite Z.max_r by lia. cbn [Z.opp Z.pow]. lia.
+    + exists (M * 5 ^ (- k)), k. split.
+      * apply lex_decimal_dec_lex; [|lia]. apply Z.mul_nonneg_nonneg; [lia|]. apply Z.pow_nonneg. lia.
+      * split; [lia|]. rewrite Z.max_r by lia. rewrite Z.max_l by lia.
+        change 10 with (5 * 2). rewrite Z.pow_mul_l. cbn [Z.pow]. lia.
+Qed.
+
+(* ------------------------------------------------------------------ widening float32 -> float64 is exact *)
+Lemma fields_compose : forall s E F, 0 <= s <= 1 -> 0 <= E < 2048 -> 0 <= F < 2 ^ 52 ->
+  let b := s * 2 ^ 63 + E * 2 ^ 52 + F in
+  (2 ^ 63 <=? b) = (s =? 1) /\ (b / 2 ^ 52) mod 2048 = E /\ b mod 2 ^ 52 = F.
+Proof.
+  intros s E F Hs HE HF b.
+  assert (H63 : 2 ^ 63 = 2048 * 2 ^ 52) by (change 63 with (11 + 52); rewrite Z.pow_add_r by lia; reflexivity).
+  assert (HP : 0 < 2 ^ 52) by (apply Z.pow_pos_nonneg; lia).
+  subst b. rewrite H63. generalize dependent (2 ^ 52). intros P HF _ HP.
+  assert (Hb : s * (2048 * P) + E * P + F = (s * 2048 + E) * P + F) by ring.
+  assert (Hdiv : (s * (2048 * P) + E * P + F) / P = s * 2048 + E).
+  { rewrite Hb. symmetry. apply (Z.div_unique_pos _ P _ F); [lia | ring]. }
+  assert (Hmod : (s * (2048 * P) + E * P + F) mod P = F).
+  { rewrite Hb. symmetry. apply (Z.mod_unique_pos _ P (s * 2048 + E) F); [lia | ring]. }
+  split; [|split].
+  - destruct (Z.eqb_spec s 1) as [->|Hn].
+    + apply Z.leb_le. nia.
+    + apply Z.leb_gt. assert (s = 0) by lia. subst s. nia.
+  - rewrite Hdiv. symmetry. apply (Z.mod_unique_pos _ 2048 s E); [lia | ring].
+  - exact Hmod.
+Qed.
+
+Lemma f64_decomp_compose : forall s E F, 0 <= s <= 1 -> 0 <= E < 2048 -> 0 <= F < 2 ^ 52 ->
+  f64_decomp (s * 2 ^ 63 + E * 2 ^ 52 + F) =
+  if E =? 0 then (s =? 1, F, -1074) else (s =? 1, 2 ^ 52 + F, E - 1075).
+Proof.
+  intros s E F Hs HE HF. destruct (fields_compose s E F Hs HE HF) as (H1 & H2 & H3).
+  unfold f64_decomp. rewrite H1, H2, H3. reflexivity.
+Qed.
+
+(* the value of the widened pattern equals the value of the float32 pattern: M' * 2^k' = M * 2^k (scaled by 2^1074) *)
+Theorem widen32_exact : forall b, 0 <= b < 2 ^ 32 -> f32_is_finite b = true ->
+  forall neg M k neg' M' k', f32_decomp b = (neg, M, k) -> f64_decomp (widen32 b) = (neg', M', k') ->
+  neg' = neg /\ M' * 2 ^ (k' + 1074) = M * 2 ^ (k + 1074) /\ f64_is_finite (widen32 b) = true.
+Proof.
+  intros b Hb Hfin neg M k neg' M' k' H32 H64.
+  unfold f32_is_finite in Hfin. apply negb_true_iff in Hfin. apply Z.eqb_neq in Hfin.
+  unfold f32_decomp in H32. unfold widen32 in *.
+  assert (H31 : 2 ^ 32 = 2 * 2 ^ 31) by reflexivity.
+  assert (H23 : 2 ^ 31 = 256 * 2 ^ 23) by reflexivity.
+  set (s := b / 2 ^ 31) in *. set (e := (b / 2 ^ 23) mod 256) in *. set (f := b mod 2 ^ 23) in *.
+  assert (Hs : 0 <= s <= 1).
+  { unfold s. split; [apply Z.div_pos; lia|]. apply Z.lt_succ_r. apply Z.div_lt_upper_bound; lia. }
+  assert (He : 0 <= e < 256) by (unfold e; apply Z.mod_pos_bound; lia).
+  assert (Hf : 0 <= f < 2 ^ 23) by (unfold f; apply Z.mod_pos_bound; lia).
+  assert (Hneg : (2 ^ 31 <=? b) = (s =? 1)).
+  { unfold s. destruct (Z.leb_spec (2 ^ 31) b) as [Hge|Hlt].
+    - assert (1 <= b / 2 ^ 31) by (apply Z.div_le_lower_bound; lia).
+      symmetry. apply Z.eqb_eq. fold s in Hs. unfold s in Hs. lia.
+    - rewrite Z.div_small by lia. reflexivity. }
+  rewrite Hneg in H32.
+  destruct (Z.eqb_spec e 255) as [E255|_]; [contradiction|].
+  destruct (Z.eqb_spec e 0) as [E0|En0].
+  - (* zero / subnormal *)
+    apply pair_equal_spec in H32. destruct H32 as [H32 Hk]. apply pair_equal_spec in H32. destruct H32 as [Hn HM]. subst neg M k.
+    destruct (Z.eqb_spec f 0) as [F0|Fn0].
+    + replace (s * 2 ^ 63) with (s * 2 ^ 63 + 0 * 2 ^ 52 + 0) in * by ring.
+      rewrite f64_decomp_compose in H64 by lia. change (0 =? 0) with true in H64. cbn iota in H64. apply pair_equal_spec in H64. destruct H64 as [H64 Hk']. apply pair_equal_spec in H64. destruct H64 as [Hn' HM']. subst neg' M' k'.
+      split; [reflexivity|]. split; [rewrite F0; ring|].
+      unfold f64_is_finite. destruct (fields_compose s 0 0 Hs ltac:(lia) ltac:(lia)) as (_ & H2 & _).
+      rewrite H2. reflexivity.
+    + assert (Hfpos : 0 < f) by lia.
+      pose proof (Z.log2_spec f Hfpos) as Hl. set (l := Z.log2 f) in *.
+      assert (Hl0 : 0 <= l) by (unfold l; apply Z.log2_nonneg).
+      assert (Hl22 : l < 23).
+      { destruct (Z.lt_ge_cases l 23) as [|Hge]; [assumption|].
+        assert (2 ^ 23 <= 2 ^ l) by (apply Z.pow_le_mono_r; lia). lia. }
+      assert (Hsplit : 2 ^ 52 = 2 ^ l * 2 ^ (52 - l)) by (rewrite <- Z.pow_add_r by lia; f_equal; lia).
+      assert (HQ : 0 < 2 ^ (52 - l)) by (apply Z.pow_pos_nonneg; lia).
+      assert (HF : 0 <= f * 2 ^ (52 - l) - 2 ^ 52 < 2 ^ 52).
+      { rewrite Hsplit. replace (2 ^ (Z.succ l)) with (2 * 2 ^ l) in Hl by (rewrite Z.pow_succ_r by lia; ring). nia. }
+      rewrite f64_decomp_compose in H64 by lia.
+      destruct (Z.eqb_spec (l - 149 + 1023) 0) as [Ez|_]; [lia|].
+      apply pair_equal_spec in H64. destruct H64 as [H64 Hk']. apply pair_equal_spec in H64. destruct H64 as [Hn' HM']. subst neg' M' k'.
+      split; [reflexivity|]. split.
+      * replace (2 ^ 52 + (f * 2 ^ (52 - l) - 2 ^ 52)) with (f * 2 ^ (52 - l)) by ring.
+        rewrite <- Z.mul_assoc, <- Z.pow_add_r by lia. f_equal. f_equal. lia.
+      * unfold f64_is_finite.
+        destruct (fields_compose s (l - 149 + 1023) (f * 2 ^ (52 - l) - 2 ^ 52) Hs ltac:(lia) HF) as (_ & H2 & _).
+        rewrite H2. apply negb_true_iff. apply Z.eqb_neq. lia.
+  - (* normal *)
+    apply pair_equal_spec in H32. destruct H32 as [H32 Hk]. apply pair_equal_spec in H32. destruct H32 as [Hn HM]. subst neg M k.
+    assert (H29 : 2 ^ 52 = 2 ^ 23 * 2 ^ 29) by reflexivity.
+    assert (HF : 0 <= f * 2 ^ 29 < 2 ^ 52) by (rewrite H29; assert (0 < 2 ^ 29) by (apply Z.pow_pos_nonneg; lia); nia).
+    rewrite f64_decomp_compose in H64 by lia.
+    destruct (Z.eqb_spec (e - 127 + 1023) 0) as [Ez|_]; [lia|].
+    apply pair_equal_spec in H64. destruct H64 as [H64 Hk']. apply pair_equal_spec in H64. destruct H64 as [Hn' HM']. subst neg' M' k'.
+    split; [reflexivity|]. split.
+    + rewrite H29. replace (2 ^ 23 * 2 ^ 29 + f * 2 ^ 29) with ((2 ^ 23 + f) * 2 ^ 29) by ring.
+      rewrite <- Z.mul_assoc, <- Z.pow_add_r by lia. f_equal. f_equal. lia.
+    + unfold f64_is_finite.
+      destruct (fields_compose s (e - 127 + 1023) (f * 2 ^ 29) Hs ltac:(lia) HF) as (_ & H2 & _).
+      rewrite H2. apply negb_true_iff. apply Z.eqb_neq. lia.
+Qed.
